@@ -251,11 +251,17 @@ def cli_variants(rng, base, bl, al):
         out.append(c)
     base_defs = base.get("define") or []
     defs = [["DBG=1", "VERB=1"], ["DBG=0", "VERB=0"], ["DBG=1", "VERB=0"], ["DBG=0", "VERB=1"], ["VERB=1", "DBG=1"],
-            ["CFLAGS+=-Dcli"], ["CFLAGS+=-Dcli", "X=1", "LIBS+=-lm"], ["X=${no_such_variable}"], ["novalue"]]
+            ["CFLAGS+=-Dcli"], ["CFLAGS=-Dcli"], ["CFLAGS+=-Da", "CFLAGS+=-Db"], ["CFLAGS+=-Da -Db"], ["LIBS=-lm"], ["LIBS+=-lm"],
+            ["CFLAGS+=-Dcli", "X=1", "LIBS+=-lm"], ["X=${no_such_variable}"], ["novalue"]]
     good = [c for c in out if "nosuchbuilder" not in (c.get("builders") or []) and "nosuchapp" not in (c.get("apps") or [])]
     for _ in range(2):
         out.append(dict(rng.choice(good), define=rng.choice(defs)))
         good.append(out[-1])
+    if rng.random() < 0.5:
+        # the same text assigned and appended; one appended list against two appended elements
+        c = rng.choice(good); v = rng.choice(["CFLAGS", "LIBS", "X"])
+        pair = rng.choice([(["%s=-g" % v], ["%s+=-g" % v]), (["%s+=a" % v, "%s+=b" % v], ["%s+=a b" % v])])
+        out += [dict(c, define=pair[0]), dict(c, define=pair[1])]
     # --select / --disable lists: single, several, the same names in another order, with a duplicate
     mods = ["m0", "m1", "m2", "m3", "?m2", "?m4"]
     if rng.random() < 0.6:
